@@ -357,7 +357,8 @@ func TestVerifC19Binary(t *testing.T) {
 		dataDir := filepath.Join(cdir, n.DirName)
 		file := filepath.Join(cdir, "liftbridge.yaml")
 		yaml := func(tel string) string {
-			y := strings.Replace(c19Yaml(n, natsURL, dataDir, tel), "port: 0", fmt.Sprintf("port: %d", port), 1)
+			y := strings.Replace(c19Yaml(n, natsURL, dataDir, tel), "listen: 127.0.0.1:0", fmt.Sprintf("listen: 127.0.0.1:%d", port), 1)
+			y = strings.Replace(y, "port: 0", fmt.Sprintf("port: %d", port), 1)
 			y = strings.Replace(y, "level: error", "level: info", 1)
 			os.WriteFile(file, []byte(y), 0644)
 			return y
